@@ -1,0 +1,85 @@
+//go:build verif
+// +build verif
+
+package jsonata
+
+import (
+	"fmt"
+	"reflect"
+	"sort"
+	"unsafe"
+
+	"github.com/blues/jsonata-go/jparse"
+	"github.com/blues/jsonata-go/verifhook"
+)
+
+// Point kinds, re-exported for the call sites.
+const (
+	vEval    = verifhook.KEval
+	vCall    = verifhook.KCall
+	vRead    = verifhook.KRead
+	vWrite   = verifhook.KWrite
+	vLock    = verifhook.KLock
+	vUnlock  = verifhook.KUnlock
+	vRLock   = verifhook.KRLock
+	vRUnlock = verifhook.KRUnlock
+)
+
+func vpoint(kind uint8, loc unsafe.Pointer) {
+	verifhook.Point(kind, loc)
+}
+
+// VerifRoot returns the root of the expression's syntax tree.
+func (e *Expr) VerifRoot() jparse.Node {
+	return e.node
+}
+
+// VerifRegistry lists the names registered on this Expr (sorted).
+func (e *Expr) VerifRegistry() []string {
+	names := make([]string, 0, len(e.registry))
+	for name := range e.registry {
+		names = append(names, name)
+	}
+	sort.Strings(names)
+	return names
+}
+
+// VerifBaseEnv describes the mutable state of every built-in function object:
+// "name=<callable name> ctx=<context value>", sorted by symbol.
+func VerifBaseEnv() []string {
+	var out []string
+	for sym, v := range baseEnv.symbols {
+		c, ok := v.Interface().(*goCallable)
+		if !ok {
+			continue
+		}
+		ctx := "<unset>"
+		if c.context.IsValid() && c.context.CanInterface() {
+			ctx = fmt.Sprintf("%#v", c.context.Interface())
+		}
+		out = append(out, fmt.Sprintf("%s: name=%s ctx=%s", sym, c.name, ctx))
+	}
+	sort.Strings(out)
+	return out
+}
+
+// VerifGlobalRegistry lists the names in the package-level registry (sorted).
+func VerifGlobalRegistry() []string {
+	globalRegistryMutex.RLock()
+	defer globalRegistryMutex.RUnlock()
+	names := make([]string, 0, len(globalRegistry))
+	for name := range globalRegistry {
+		names = append(names, name)
+	}
+	sort.Strings(names)
+	return names
+}
+
+// VerifResetGlobalRegistry empties the package-level registry.
+func VerifResetGlobalRegistry() {
+	globalRegistryMutex.Lock()
+	globalRegistry = nil
+	globalRegistryMutex.Unlock()
+}
+
+var _ = reflect.ValueOf
